@@ -62,6 +62,10 @@ def call(case):
     op = case['op']
     if op == 'np':
         return np_index(case)
+    if op == 'sel':
+        # spec suite: the independent Python reference (no polymath code involved)
+        r = expect_get({'shape': case['obj']['shape'], 'mask': 'F', 'derivs': {}}, case['index'])
+        return r if isinstance(r, str) else r[0]
     q = R.mk_object(case['obj'])
     if op == 'get':
         return R.observe_all(q[R.mk_index(case)])
@@ -148,8 +152,8 @@ def ient(i):
 
 
 def expect(case):
-    if case['op'] == 'np':
-        return None                      # kernel suite: NumPy itself is the reference (correspondence only)
+    if case['op'] in ('np', 'sel'):
+        return None                      # kernel / spec suite: correspondence only
     op, obj = case['op'], case['obj']
     if op == 'get':
         return expect_get(obj, case['index'])
@@ -166,6 +170,8 @@ def expect(case):
 
 def features(case):
     """coarse structural description of an index, used in `kind` and in failure signatures"""
+    if case['op'] == 'sel':
+        return 'spec-suite'
     if case['op'] != 'get':
         return case['op'] if case['op'] != 'np' else 'numpy-kernel'
     obj = case['obj']
@@ -293,6 +299,8 @@ def request(case):
     shape, masks = wire_object(case['obj'])
     if op == 'get':
         return ['c09', 'get', shape, masks, wire_index(shape, case['index'])]
+    if op == 'sel':
+        return ['c09', 'sel', shape, wire_index(shape, case['index'])]
     if op in ('iter', 'ndenum'):
         return ['c09', op, shape, masks]
     if op == 'len':
@@ -380,6 +388,11 @@ def np_abstract(shape, raw):
 
 
 def mk(case):
+    if case['op'] == 'sel':
+        case['req'] = request(case)
+        case['kind'] = 'spec-suite'
+        case['nontrivial'] = True
+        return case
     if case['op'] == 'np':
         case['nidx'] = np_abstract(case['shape'], case['nraw'])
         case['req'] = request(case)
@@ -396,6 +409,24 @@ def mk(case):
     case['nontrivial'] = bool(flagged(case) or any(mask_bits(obj['mask'], obj['shape'])) or
                               any(e['k'] in ('iarr', 'barr', 'vec') for e in case.get('index', [])))
     return case
+
+
+def sel_sibling(case):
+    """the same index for the spec suite (Lean `sel` vs the Python reference), where `sel` is defined: a leading
+    shape, no Pair/Vector entry, not the integer-gap class of DESIGN 8.2 (where the reference keeps NumPy's order)"""
+    obj, ents = case['obj'], case['index']
+    if not obj['shape'] or any(e['k'] in ('vec', 'float', 'bad') for e in ents):
+        return None
+    names = [e['k'] for e in ents]
+    arr = [i for i, k in enumerate(names) if k in ('iarr', 'barr')]
+    adv = [i for i, k in enumerate(names) if k in ('iarr', 'barr', 'int')]
+    if arr:
+        arrays_sep = any(names[j] not in ('iarr', 'barr', 'int') for j in range(arr[0], arr[-1]))
+        numpy_front = any(names[j] not in ('iarr', 'barr', 'int') for j in range(adv[0], adv[-1]))
+        if numpy_front and not arrays_sep:
+            return None
+    return mk({'op': 'sel', 'obj': {'cls': 'Scalar', 'shape': obj['shape'], 'item': [], 'mask': 'F', 'derivs': {}},
+               'index': ents})
 
 
 def gen_cases(rng, tier):
@@ -417,6 +448,11 @@ def gen_cases(rng, tier):
                 shape = [rng.choice([0, 1, 2, 3, 2, 3]) for _ in range(rank)]
                 obj = G.rand_object(rng, shape=shape, derivs=False, classes=['Scalar', 'Scalar', 'Vector'])
                 cases.append(mk({'op': 'get', 'obj': obj, 'index': G.concretise(rng, shape, kinds), 'bare': False}))
+    for c in list(cases)[:: 2 if thorough else 3]:
+        if c['op'] == 'get':
+            sib = sel_sibling(c)
+            if sib is not None:
+                cases.append(sib)
     for _ in range(40000 if thorough else 4000):
         shape = G.rand_shape(rng, 3, 3)
         cases.append(mk({'op': 'np', 'shape': shape, 'nraw': mk_np(rng, shape)}))
